@@ -45,7 +45,11 @@ let () = Reg.register "c03.tables" (fun inp out ->
     let classify v = if shared_final && v <> "ok" then "bad:shared-final-state-eoi-pollution" else v in
     (* the proved-sound certificate (Props/C03.v, C03_lalr_la_exact): the reference automaton consists of
        LR(0)-valid item sets and its lookahead table is stable, hence exactly LALR(1) *)
-    let certified = LalrCert.ref_cert g ref_fuel in
+    (* C03_reference_is_LALR1 / C03_reference_views_are_LALR1_light: the automaton clauses of the certificate are theorems
+       about build_automaton; what is still evaluated per grammar is ref_cert_light (grammar well-formed, work
+       list of build_loop empty, la_fix stopped on a stable table).  The full certificate is only
+       evaluated when the light one fails. *)
+    let certified = LalrDone.ref_cert_light g ref_fuel || LalrCert.ref_cert g ref_fuel in
     let verdict = if not certified then "bad:reference-construction-not-certified-LALR1" else classify (
       if Stdlib.List.length go_states <> Stdlib.List.length ro.ro_views then "bad:number-of-states-differs-from-the-LR0-collection" else begin
         let bad = ref "ok" in
